@@ -104,6 +104,23 @@ func failsAtOnce(f *Func, list []ast.Stmt) (bool, bool) { // (fails, decided)
 				}
 			}
 			return false, true
+		case *ast.BlockStmt:
+			return failsAtOnce(f, append(append([]ast.Stmt{}, s.List...), list[i+1:]...))
+		case *ast.AssignStmt:
+			// what an inlined `return nil, fmt.Errorf(…)` becomes: an error variable receives a freshly made error
+			for j, l := range s.Lhs {
+				if j < len(s.Rhs) && len(s.Lhs) == len(s.Rhs) && isErrorType(f.TypeOf(l)) {
+					if call, ok := ast.Unparen(s.Rhs[j]).(*ast.CallExpr); ok {
+						if fn := f.Callee(call); fn != nil {
+							k := calleeKey(fn)
+							if k == "fmt.Errorf" || k == "errors.New" || (fn.Pkg() != nil && pkgKey(fn.Pkg().Path()) != "") {
+								return true, true
+							}
+						}
+					}
+				}
+			}
+			return false, true
 		case *ast.IfStmt:
 			// a choice between failures: both ways must fail
 			if s.Init != nil {
@@ -171,6 +188,10 @@ func ruleValueKindTotality(c *Ctx, rule string, want func(f *Func) bool, floor i
 			fails, decided := false, true
 			if deflt != nil && len(deflt.Body) > 0 {
 				fails, decided = failsAtOnce(f, deflt.Body)
+				if !fails && decided && !terminates(deflt.Body) {
+					// the default can fall out of the switch: what follows the switch decides
+					fails, decided = failsAtOnce(f, append(append([]ast.Stmt{}, deflt.Body...), continuationOf(f, sw)...))
+				}
 			} else {
 				fails, decided = noMatchContinuationFails(f, sw)
 			}
@@ -1355,4 +1376,89 @@ func pathSearchErrs(f *Func, g *Graph, from Loc, seed map[types.Object]string, v
 		}
 	}
 	return false
+}
+
+
+// continuationOf: the statements that run after st when control falls out of it, flattened through enclosing
+// case clauses and blocks up to the end of the function (a loop boundary ends the list with a marker statement
+// that is not a failure).
+func continuationOf(f *Func, st ast.Stmt) []ast.Stmt {
+	var out []ast.Stmt
+	cur := st
+	for depth := 0; depth < 6; depth++ {
+		var rest []ast.Stmt
+		var parent ast.Node
+		found := false
+		var stack []ast.Node
+		ast.Inspect(f.Decl.Body, func(x ast.Node) bool {
+			if x == nil {
+				stack = stack[:len(stack)-1]
+				return true
+			}
+			if found {
+				return false
+			}
+			var list []ast.Stmt
+			switch y := x.(type) {
+			case *ast.BlockStmt:
+				list = y.List
+			case *ast.CaseClause:
+				list = y.Body
+			case *ast.CommClause:
+				list = y.Body
+			}
+			for i, s := range list {
+				if s == cur {
+					rest = list[i+1:]
+					found = true
+					parent = x
+					if _, isBlock := x.(*ast.BlockStmt); isBlock && len(stack) > 0 {
+						parent = stack[len(stack)-1]
+					}
+				}
+			}
+			stack = append(stack, x)
+			return true
+		})
+		if !found {
+			return out
+		}
+		out = append(out, rest...)
+		if terminates(rest) {
+			return out
+		}
+		switch p := parent.(type) {
+		case *ast.CaseClause:
+			var owner ast.Stmt
+			ast.Inspect(f.Decl.Body, func(x ast.Node) bool {
+				switch y := x.(type) {
+				case *ast.SwitchStmt:
+					for _, s := range y.Body.List {
+						if s == ast.Stmt(p) {
+							owner = y
+						}
+					}
+				case *ast.TypeSwitchStmt:
+					for _, s := range y.Body.List {
+						if s == ast.Stmt(p) {
+							owner = y
+						}
+					}
+				}
+				return owner == nil
+			})
+			if owner == nil {
+				return out
+			}
+			cur = owner
+		case *ast.IfStmt:
+			cur = p
+		case *ast.LabeledStmt:
+			cur = p
+		default:
+			// a loop body or the function body ends here: execution goes on normally
+			return append(out, &ast.EmptyStmt{}, &ast.ExprStmt{X: ast.NewIdent("_continues_")})
+		}
+	}
+	return out
 }
